@@ -179,6 +179,10 @@ def named_calls(rep, rng):
                 break
 
 
+# share of the programs that is also sent through the whole-pipeline model (op `pipe`), per tier
+PIPE_SHARE = {'quick': 1.0, 'thorough': 1.0}
+
+
 def run(rep):
     rep.rule = ("closed core programs generated as syntax trees (type-directed, mostly well-typed, with a share of "
                 "type errors, explicit errors, asserts, std.trace), printed with minimal and with redundant "
@@ -191,7 +195,7 @@ def run(rep):
         "f64 arithmetic in the model is Lean's `Float` (IEEE binary64, same operations as Rust)",
         "error details that embed Rust float formatting are compared by kind only",
     ]
-    vlib.prelude(rep, extra_modules=['RsjProps.C02Eval'])
+    vlib.prelude(rep, extra_modules=['RsjProps.C02Eval', 'RsjProps.C02Pipeline'])
     rng = rep.rng
     n = 4000 if rep.tier == 'quick' else 40000
     depth = 5 if rep.tier == 'quick' else 6
@@ -201,6 +205,14 @@ def run(rep):
     # the same trees printed with redundant parentheses / whitespace: a source text means the same
     srcs2 = [G.to_jsonnet(p, rng, 0.15, True) for p in progs]
     io2 = [C.canon_impl(a) for a in vlib.impl([vlib.eval_line(s, max_stack=500, traces=1) for s in srcs2])]
+    # the very source texts through the whole-pipeline model (Lean lexer + parser + lowering + analysis + evaluator):
+    # implementation vs pipeline, and S-expression route vs source route (core_cmp.check_pipe)
+    pshare = PIPE_SHARE.get(rep.tier, 1.0)
+    C.check_pipe(rep, 'c02:', srcs, io, mo, max_stack=500, fuel=6000, share=pshare, label='generated, minimal parentheses')
+    C.check_pipe(rep, 'c02ws:', srcs2, io2, mo, max_stack=500, fuel=6000, share=pshare, label='generated, redundant parentheses/whitespace/comments')
+    # sources that exist only as text: hand-written corpus (every literal spelling, text blocks, rounding boundaries, `std`
+    # rebound, tailstrict positions, static errors ...) and byte-level mutations of printed programs (malformed stream)
+    C.pipe_directed(rep, 'c02', progs[:400], 1500 if rep.tier == 'quick' else 30000)
     for p, s, a, b, s2, a2 in zip(progs, srcs, io, mo, srcs2, io2):
         size = G.size(p)
         stage = 'analyze' if ' analyze ' in a else ('parse' if (' parse ' in a or ' lex ' in a) else a.split(' ')[0])
@@ -225,6 +237,7 @@ def run(rep):
     # late binding / forcing order: closed-form expected results (independent of the model), and the model
     lb = G.late_binding_cases(rng, 120 if rep.tier == 'quick' else 4000)
     lsrc, lio, lmo = C.run_pair([p for p, _ in lb], max_stack=500, fuel=6000, traces=False)
+    C.check_pipe(rep, 'c02lb:', lsrc, lio, lmo, max_stack=500, fuel=6000, traces=False, label='late binding')
     for (p, exp), s, a, b in zip(lb, lsrc, lio, lmo):
         rep.bump('late-binding')
         rep.count(s, True)
@@ -249,6 +262,9 @@ def run(rep):
         lines.append(vlib.eval_line(G.to_jsonnet(p), max_stack=500, traces=1))
         lines.append(vlib.eval_line(G.to_jsonnet(q), max_stack=500, traces=1))
     outs = [C.canon_impl(a) for a in vlib.impl(lines)]
+    # both sides of every equation through the pipeline model too (the sugared side exercises the lowering)
+    C.check_pipe(rep, 'c02eq:', [vlib.unhx(l.split(' ')[1]).decode('utf-8') for l in lines], outs, None, max_stack=500, fuel=6000,
+                 share=pshare, label='specification equations (both sides)')
     for i, (desc, p, q) in enumerate(pairs):
         a, b = outs[2 * i], outs[2 * i + 1]
         rep.bump('eq:' + desc)
@@ -263,7 +279,8 @@ def run(rep):
 def replay(r):
     vlib.build_harness()
     rp = r['replay']
-    a = C.canon_impl(vlib.impl([vlib.eval_line(rp['src'], max_stack=500, traces=1)])[0])
+    src = bytes.fromhex(rp['srchex']) if 'srchex' in rp else rp['src']
+    a = C.canon_impl(vlib.impl([vlib.eval_line(src, max_stack=500, traces=1)])[0])
     print('impl :', a)
     bad = 0
     if 'src2' in rp:
@@ -274,4 +291,5 @@ def replay(r):
         b = vlib.model(['core 500 6000 1 ' + rp['sexp']])[0]
         print('model:', b)
         bad |= C.norm(a) != C.norm(b)
+    bad |= C.replay_pipe(rp, a)
     return 1 if bad else 0
